@@ -51,6 +51,11 @@ pub enum Op {
     },
     /// brk with an absolute argument (generated as the guest's very first call, before any query)
     BrkAbs { arg: u64 },
+    /// pipe programs: the previous read / write is issued once more by a second `syscall` instruction directly
+    /// behind the first - no guest instruction in between - after the *host* pointed RSI at `DATA + off` (and
+    /// restored the call number in RAX): "fault, repair, retry" if the previous call failed on its buffer, a plain
+    /// repetition otherwise
+    Retry { off: u64 },
     /// another host action between two guest instructions of a brk program (the guest executes a NOP):
     /// "late_pipe" / "late_others" - the host installs further built-in handlers with a second handle_syscalls
     /// call; "prot_rwx" / "prot_rw" - it changes the rights of the heap area, keeping read+write. None of this
@@ -214,8 +219,13 @@ fn gen_pipe_cfg(r: &mut Rng, thorough: bool, perm: bool) -> Sc {
                 };
                 let buf = if fault_cfg && r.chance(1, bad) { *r.pick(&["unmapped", "readonly", "writeonly", "straddle"]) } else { "ok" };
                 let off = r.below(DATA_LEN - n.min(DATA_LEN - 1));
+                let retry = r.chance(1, 5);
+                let retry_off = r.below(DATA_LEN - n.min(DATA_LEN - 1));
                 if k == 1 {
                     ops.push(Op::Write { fd: fd.to_string(), slot, imm, buf: buf.to_string(), off, n });
+                    if retry {
+                        ops.push(Op::Retry { off: retry_off });
+                    }
                 } else {
                     // reads: count below / at / above what is available is decided at run time; bias to small and large
                     let n = if r.chance(1, 4) { n * 4 + 1 } else { n };
@@ -224,6 +234,9 @@ fn gen_pipe_cfg(r: &mut Rng, thorough: bool, perm: bool) -> Sc {
                     let n = if r.chance(1, 16) { *r.pick(&[u64::MAX, 1u64 << 63, (1u64 << 63) + 5, (1u64 << 63) - 1, 1u64 << 32, (1u64 << 31) + 1, 0xffff_ffff]) } else { n };
                     let off = r.below(DATA_LEN - n.min(DATA_LEN - 1));
                     ops.push(Op::Read { fd: fd.to_string(), slot, imm, buf: buf.to_string(), off, n });
+                    if retry {
+                        ops.push(Op::Retry { off: retry_off });
+                    }
                 }
             }
             _ => ops.push(Op::Other { nr: *r.pick(&[0u64, 1, 2, 3, 39, 60, 231]), arg: r.below(5) }),
@@ -446,6 +459,10 @@ mod asm {
                     marks.push(a.instructions().len());
                     a.nop()?;
                 }
+                Op::Retry { .. } => {
+                    marks.push(a.instructions().len());
+                    a.syscall()?;
+                }
                 Op::BrkAbs { arg } => {
                     a.mov(eax, 12u32)?;
                     a.mov(rdi, *arg)?;
@@ -655,12 +672,20 @@ fn run_pipe(sc: &Sc, ax: &mut Axecutor, marks: &[u64], seen: &Rc<RefCell<Vec<(u6
     let mut reserved: Vec<u64> = Vec::new();
     let mut history_w: BTreeMap<(u64, u64), Vec<u8>> = BTreeMap::new();
     let mut history_r: BTreeMap<(u64, u64), Vec<u8>> = BTreeMap::new();
+    let mut last_nr: u64 = 0;
     for (k, op) in sc.ops.iter().enumerate() {
         if !step_to(ax, marks[k], ctx) {
             ctx.harness_errors.push("argument loading failed".into());
             return;
         }
+        if let Op::Retry { off } = op {
+            // host repair between the two syscall instructions: no guest instruction executes
+            let _ = ax.reg_write_64(SR::RAX, last_nr);
+            let _ = ax.reg_write_64(SR::RSI, DATA + *off);
+            ctx.fault("call_retried_after_host_repair");
+        }
         let rax = ax.reg_read_64(SR::RAX).unwrap_or(0);
+        last_nr = rax;
         let rdi = ax.reg_read_64(SR::RDI).unwrap_or(0);
         let rsi = ax.reg_read_64(SR::RSI).unwrap_or(0);
         let rdx = ax.reg_read_64(SR::RDX).unwrap_or(0);
